@@ -272,6 +272,34 @@ def run(ck, ix, tier):
             p = undominated(cfg, [r], gates)
             ck.check(bool(gates) and p is None, "G-DOM", f"PlainUnit.{name}|registry-check-before-using-other", f.loc(cfg.nodes[r].ast), "other._units only after _check", "other._units is used before self._check(other)", witness(cfg, p))
 
+    # a unit handed wholesale to a registry-bound constructor (`self._REGISTRY.Quantity(1, other)`) is relabelled as an
+    # object of this registry: only after self._check(other) has executed (it raises for a unit of another registry)
+    n_w = 0
+    for mi in ix.cls(PU, "PlainUnit").methods.values():
+        if not isinstance(mi.node, ast.FunctionDef) or "other" not in [a_.arg for a_ in mi.node.args.args]:
+            continue
+        cfgm = cfg_of(mi)
+        def units_argument(x):
+            """the argument that is taken as *units* by the registry-bound constructor `x` (None if absent)"""
+            if not isinstance(x, ast.Call):
+                return None
+            f_ = norm(x.func)
+            kw = {k.arg: k.value for k in x.keywords}
+            if f_ == "self._REGISTRY.Quantity":
+                return x.args[1] if len(x.args) > 1 else kw.get("units")
+            if f_ in ("self._REGISTRY.Unit", "self.__class__"):
+                return x.args[0] if x.args else kw.get("units")
+            return None
+        wraps_ = nodes_with(cfgm, lambda x: isinstance(units_argument(x), ast.Name) and units_argument(x).id == "other")
+        gates = nodes_with(cfgm, lambda x: isinstance(x, ast.Call) and call_name(x) == "_check" and isinstance(x.func, ast.Attribute) and norm(x.func.value) == "self" and x.args and norm(x.args[0]) == "other")
+        for r in live(cfgm, sorted(set(wraps_))):
+            n_w += 1
+            p = undominated(cfgm, [r], gates)
+            ck.check(bool(gates) and p is None, "G-DOM", f"PlainUnit.{mi.name}|registry-check-before-wrapping-other", mi.loc(cfgm.nodes[r].ast),
+                     "the other unit is wrapped as a quantity of this registry only after the registry check",
+                     f"`{cfgm.nodes[r].text()[:70]}` relabels the other operand as an object of this registry without self._check(other): units of different registries are ordered/combined silently", witness(cfgm, p))
+    ck.floor("G-DOM", n_w, 1, "PlainUnit methods wrapping the other operand in a registry-bound object")
+
     # ------------------------------------------------------------ (d) registry deep copy
     f = ix.func(PR, "GenericPlainRegistry.__deepcopy__")
     ck.analysed(f)
@@ -344,4 +372,27 @@ def run(ck, ix, tier):
         n_after = [i for c_ in after for i in nodes_with(mcfg, lambda x, c_=c_: x is c_)]
         oklz = bool(n_init) and bool(n_after) and undominated(mcfg, n_init, n_become) is None and undominated(mcfg, n_after, n_init) is None and mcfg.all_paths_pass(mcfg.entry, [mcfg.exit], n_after) is None
     ck.check(oklz, "G-TWIN", "LazyRegistry|initialises-like-UnitRegistry", lz.module.relpath, "becomes a UnitRegistry: __init__ then _after_init", "LazyRegistry no longer initialises itself as a UnitRegistry followed by _after_init()")
+    # special methods that the interpreter looks up on the TYPE (they bypass __getattr__, which is what builds the lazy
+    # registry): every one of them that the real registry defines needs an explicit forwarder on LazyRegistry, and the
+    # forwarder must build the registry first; ApplicationRegistry must forward the same set to the wrapped registry
+    TYPE_LOOKUP = {"__getitem__", "__setitem__", "__delitem__", "__call__", "__iter__", "__contains__", "__len__", "__dir__", "__enter__", "__exit__", "__next__", "__reversed__", "__bool__"}
+    ur = ix.cls("pint.registry", "UnitRegistry")
+    defined = {nm for c_ in ix.mro(ur) for nm in c_.methods if nm in TYPE_LOOKUP}
+    ck.floor("G-EXH", len(defined), 3, "type-looked-up special methods defined by the registry classes")
+    builder = next((mi for mi in lz.methods.values() if any(isinstance(a_, ast.Assign) and norm(a_.targets[0]) == "self.__class__" for a_ in walk_local(mi.node))), None)
+    for nm in sorted(defined):
+        mi = lz.methods.get(nm)
+        okf = mi is not None and builder is not None
+        if okf:
+            mc = cfg_of(mi)
+            built = nodes_with(mc, lambda x: isinstance(x, ast.Call) and isinstance(x.func, ast.Attribute) and norm(x.func.value) == "self" and x.func.attr.lstrip("_").endswith(builder.name.lstrip("_")))
+            okf = bool(built) and mc.all_paths_pass(mc.entry, [mc.exit], built) is None
+        ck.check(okf, "G-EXH", f"LazyRegistry|type-looked-up-special-method-forwarded|{nm}", lz.module.relpath if mi is None else mi.loc(), f"LazyRegistry.{nm} builds the registry and forwards",
+                 f"the registry defines `{nm}`, which Python looks up on the type (bypassing LazyRegistry.__getattr__), but LazyRegistry has no `{nm}` that builds the registry first: using it as the first operation on the default registry fails or answers for the empty placeholder")
+    ar = ix.cls("pint.registry", "ApplicationRegistry")
+    for nm in sorted(defined):
+        mi = ar.methods.get(nm)
+        okf = mi is not None and any(isinstance(x, ast.Attribute) and norm(x) == "self._registry" for r in shape.returns_of(mi.node) for x in ast.walk(r.value))
+        ck.check(okf, "G-EXH", f"ApplicationRegistry|type-looked-up-special-method-forwarded|{nm}", ar.module.relpath if mi is None else mi.loc(), f"ApplicationRegistry.{nm} forwards to the wrapped registry",
+                 f"the registry defines `{nm}` (looked up on the type) but ApplicationRegistry does not forward it to the wrapped registry")
     return EXPLANATION
